@@ -77,6 +77,7 @@ class Stream(object):
         self.host_pending_ack = False
         self.open_acked = False
         self.index = None
+        self.ready_at = 0.0        # the service is slow to start: nothing of this stream goes on the wire before this (virtual) time
 
 
 class SimError(Exception):
@@ -338,6 +339,9 @@ class DeviceSim(object):
             eager = eager[len(self.streams) % len(eager)] if eager else False
         s.eager_clse = bool(eager)
         s.index = len(self.streams)
+        for pre, delay in (self.cfg.get("open_delay") or {}).items():
+            if dest.startswith(pre):
+                s.ready_at = self.now() + delay
         self.streams.append(s)
         self.by_lid[lid] = s
         self.opens.append((self.now(), lid, rid, dest))
@@ -391,6 +395,11 @@ class DeviceSim(object):
         s.host_closed = True
         if not s.dev_closed and not s.dev_close_queued:
             # device has not closed: adbd tears the socket down and answers CLSE
+            if s.data and s.data[0][1].cmd == A_WRTE and not s.unacked and s.open_acked and s.data[0][2] <= self.host_count and self.tape.draw(2) == 1:
+                # the service's next WRTE was already on its way when the host's CLSE arrived: it crosses the CLSE on the wire
+                seq, pkt, _ = s.data.popleft()
+                s.acks.append((seq, pkt))
+                s.crossing_wrte = True
             s.data.clear()
             arg0 = 0 if self.cfg.get("zero_clse_reply") else s.rid
             s.acks.append((self._next_seq(), Packet(A_CLSE, arg0, s.lid, b"")))
@@ -447,7 +456,10 @@ class DeviceSim(object):
         cands = []
         if self.control:
             cands.append((self.control[0][0], "control", None))
+        now = self.now()
         for s in self.streams:
+            if s.ready_at > now:
+                continue
             if s.acks:
                 cands.append((s.acks[0][0], "ack", s))
             if s.data and s.open_acked:
